@@ -348,6 +348,9 @@ def run(repo: Repo, rep: Report, tier: str) -> None:
 
     enc_classes = [ci_ for mi_ in repo.modules.values() if mi_.relpath.startswith(ENC + "/") for ci_ in mi_.classes.values()]
     n += rule_cache_key(repo, rep, enc_classes)
+    from .c01 import rule_buffer_persistence
+
+    n += rule_buffer_persistence(repo, rep, names=("generator_matrix", "generator_right_inverse"), effect="inverse_encode applies the right inverse of another code's generator and no longer undoes the encoder", floor=3)
     rep.floor("C04 rule instances", n, 28)
     rep.decided_clauses += [
         "right inverse: exact or verified on the returned object; systematic encoders use the selection matrix of their information set",
